@@ -97,6 +97,14 @@ pub open spec fn pairs_ok(seg: Seq<CompiledItem>, ks: Seq<Seq<CompiledItem>>, vs
         &&& pairs_ok(seg.subrange(0, seg.len() - n), ks.drop_last(), vs.drop_last(), m, k)
     }
 }
+pub open spec fn map_shape(out: Seq<CompiledItem>, ks: Seq<Seq<CompiledItem>>, vs: Seq<Seq<CompiledItem>>, m: int, k: int, c0: int) -> bool {
+    &&& out.len() >= 3 && m != k && c0 <= m < c0 + 2 && c0 <= k < c0 + 2 && ks.len() == vs.len()
+    &&& is_store_reg(out[1], m)
+    &&& is_instr(out.last(), LOAD_FAST) && nargs(out.last()) == 1 && argn(out.last(), 0) == m
+    &&& pairs_ok(out.subrange(2, out.len() - 1), ks, vs, m, k)
+    &&& (forall|i: int| 0 <= i < ks.len() ==> writes_ge(#[trigger] ks[i], c0 + 2))
+    &&& (forall|i: int| 0 <= i < vs.len() ==> writes_ge(#[trigger] vs[i], c0 + 2))
+}
 pub proof fn lemma_pairs_step(seg: Seq<CompiledItem>, ks: Seq<Seq<CompiledItem>>, vs: Seq<Seq<CompiledItem>>, kc: Seq<CompiledItem>, st: CompiledItem, vc: Seq<CompiledItem>, ins: CompiledItem, m: int, k: int)
     requires pairs_ok(seg, ks, vs, m, k), ks.len() == vs.len(), is_store_reg(st, k), is_map_insert(ins, m, k)
     ensures pairs_ok(seg + kc + seq![st] + vc + seq![ins], ks.push(kc), vs.push(vc), m, k)
@@ -153,7 +161,7 @@ def build(repo):
     invm = ("invariant $K <= $V.len(), count(state) == c0 + 2, ks.len() == $K, vs.len() == $K, "
             "forall|i: int| 0 <= i < $K ==> writes_ge(#[trigger] ks[i], c0 + 2), forall|i: int| 0 <= i < $K ==> writes_ge(#[trigger] vs[i], c0 + 2), "
             "result@.len() == 2 + seg.len(), result@.subrange(0, 2) == head, result@.subrange(2, result@.len() as int) == seg, "
-            "pairs_ok(seg, ks, vs, c0, c0 + 1) decreases $V.len() - $K")
+            "pairs_ok(seg, ks, vs, gm, gk), gm == reg_id(&map_register), gk == reg_id(&key_register) decreases $V.len() - $K")
     def mloop(b):
         k = "verif_k_m"
         return [f"let mut {k} : usize = 0 ; while {k} < self . initializer . map . len ( )", G(invm.replace("$K", k).replace("$V", "self.initializer.map")),
@@ -170,13 +178,13 @@ def build(repo):
         Rule("R13", "result . append ( & mut compile_value ( value , state ) ? ) ;", ["let mut verif_vc = compile_value ( value , state ) ? ;", G("let ghost vc = verif_vc@; let ghost st = result@.last();"), "result . append ( & mut verif_vc ) ;"], count=1, why="temporary named"),
     ]
     bm = translate(fm["body"], rules_m, log, "Map::compile")
-    bm = Rule("R11", "let mut result = vec2 ( $$a ) ;", ["let mut result = vec2 ( $$a ) ;", G("proof { head = result@; assert(result@.subrange(2, result@.len() as int) =~= seg); }")], count=1, why="").apply(bm, log)
+    bm = Rule("R11", "let mut result = vec2 ( $$a ) ;", ["let mut result = vec2 ( $$a ) ;", G("proof { head = result@; gm = reg_id(&map_register); gk = reg_id(&key_register); assert(result@.subrange(2, result@.len() as int) =~= seg); }")], count=1, why="").apply(bm, log)
     bm = Rule("R11", "result . push ( mk_instr ( $$a ) ) ; }", ["result . push ( mk_instr ( $$a ) ) ;",
               G("proof { let ghost old_seg = seg; let ghost oks = ks; let ghost ovs = vs; seg = seg + kc + seq![st] + vc + seq![result@.last()]; ks = ks.push(kc); vs = vs.push(vc); "
-                "lemma_pairs_step(old_seg, oks, ovs, kc, st, vc, result@.last(), c0, c0 + 1); "
+                "lemma_pairs_step(old_seg, oks, ovs, kc, st, vc, result@.last(), gm, gk); "
                 "assert(result@.subrange(0, 2) =~= head); assert(result@.subrange(2, result@.len() as int) =~= seg); }"), "}"], count=1, why="").apply(bm, log)
     bm = Rule("R11", "result } )", [G("proof { assert(result@.subrange(2, result@.len() - 1) =~= seg); assert(result@[0] == head[0] && result@[1] == head[1]); "
-              "assert(is_store_reg(result@[1], c0)); assert(is_instr(result@.last(), LOAD_FAST)); assert(pairs_ok(result@.subrange(2, result@.len() - 1), ks, vs, c0, c0 + 1)); }"), "result } )"], count=1, why="").apply(bm, log)
+              "assert(is_store_reg(result@[1], gm)); assert(is_instr(result@.last(), LOAD_FAST)); assert(pairs_ok(result@.subrange(2, result@.len() - 1), ks, vs, gm, gk)); assert(map_shape(result@, ks, vs, gm, gk, c0)); assert(is_instr(result@[0], MAKE_MAP) && nargs(result@[0]) == 1 && argn(result@[0], 0) == self.initializer.map@.len()); assert(ks.len() == self.initializer.map@.len()); }"), "result } )"], count=1, why="").apply(bm, log)
     check_closed(bm, "Map::compile")
     txt_m = render(bm, 2)
     # anchor the ghost state after the head of the output is built
@@ -239,21 +247,17 @@ impl Map {{
             r is Ok ==> ({{
                 let out = r->Ok_0@; let c0 = count(old(state)); let n = self.initializer.map@.len() as int;
                 &&& (n == 0 ==> out.len() == 1 && is_instr(out[0], MAKE_MAP))
-                &&& (n > 0 ==> out.len() >= 3
-                    && is_instr(out[0], MAKE_MAP) && nargs(out[0]) == 1 && argn(out[0], 0) == n
-                    && is_store_reg(out[1], c0)
-                    && is_instr(out.last(), LOAD_FAST) && nargs(out.last()) == 1 && argn(out.last(), 0) == c0
-                    // pairs left to right; within a pair the key first, then the value, each compiled exactly once; neither the map register c0
-                    // nor the key register c0+1 is written by any key's or value's code
-                    && exists|ks: Seq<Seq<CompiledItem>>, vs: Seq<Seq<CompiledItem>>| ks.len() == n && vs.len() == n
-                        && #[trigger] pairs_ok(out.subrange(2, out.len() - 1), ks, vs, c0, c0 + 1)
-                        && (forall|i: int| 0 <= i < n ==> writes_ge(#[trigger] ks[i], c0 + 2))
-                        && (forall|i: int| 0 <= i < n ==> writes_ge(#[trigger] vs[i], c0 + 2)))
+                // two distinct registers M (the map under construction) and K (the current key), both handed out before any key / value is
+                // compiled; pairs left to right; within a pair the key first, then the value, each compiled exactly once; neither M nor K
+                // is written by any key's or value's code
+                &&& (n > 0 ==> out.len() >= 3 && is_instr(out[0], MAKE_MAP) && nargs(out[0]) == 1 && argn(out[0], 0) == n
+                    && exists|ks: Seq<Seq<CompiledItem>>, vs: Seq<Seq<CompiledItem>>, m: int, k: int| #[trigger] map_shape(out, ks, vs, m, k, c0) && ks.len() == n)
             }}),
     {{
         let ghost c0 = count(state);
         let ghost mut ks: Seq<Seq<CompiledItem>> = Seq::empty();
         let ghost mut vs: Seq<Seq<CompiledItem>> = Seq::empty();
+        let ghost mut gm: int = 0; let ghost mut gk: int = 0;
         let ghost mut seg: Seq<CompiledItem> = Seq::empty();
         let ghost mut head: Seq<CompiledItem> = Seq::empty();
 {txt_m}
